@@ -26,12 +26,16 @@ CLAIMED = {
          "Library kernels only (extract_word_at_position, parameter_has_annotation, format_docstring, line index arithmetic, get_function_param_insertion_info, position queries on stale spans, completion text fallback); text lengths as stated per harness." + COMMON_NOTE),
  "C12": ("DESIGN.md §4 C12, §9", "Lock discipline: the sequential DashMap stand-in asserts in every write-locking operation that no guard of the same map is live on the calling path (shard-independent statement) — active in every harness of every family; termination: unwinding assertions on compute_fixture_cycles over cyclic dependency graphs and on the conftest walk.",
          "Single-threaded paths only (no lock-order inversion across threads); import-graph cycles need the import walk (C14)." + COMMON_NOTE),
- "C15": ("DESIGN.md §4 C15, §9", "Recorded positions, kernels only: line-index arithmetic (get_line_from_offset / get_char_position_from_offset) against its specification for every strictly increasing index (<= 4 lines) and every offset; find_function_name_position on def-line templates (plain, async, indented, tab) compared with the true token span.",
-         "The spans the analyzer records for usages (UTF-16 columns, string-literal forms) need analyze_file on non-trivial ASTs and are out of solver reach (harnesses kept under props=ATTEMPT; the defects they show natively are listed in DESIGN.md §9.4); Range construction in handlers is outside." + COMMON_NOTE),
+ "C13": ("DESIGN.md §4 C13, §9.8", "The per-path decision of scan_workspace_with_excludes — the text of its filter_entry predicate (which directories are descended into) and of its walk-loop body (which yielded files are kept) is extracted from the current tree at every run and executed through CBMC; the directory walk itself is replaced by its contract (an entry is yielded iff the predicate accepted the root and every directory above it). Decided on concrete rows: the three file-name forms and their near misses; ignored directories (VCS, virtualenv, cache, build, *.egg-info) at depth 1 and 2 versus names that merely resemble them; RELOCATION — the same root-relative file is indexed whether the root is /w, /home/u/w, lies below a directory carrying an ignored name, or is itself so named; exclude patterns matched against root-relative paths, also after relocation.",
+         "Concrete rows (each row is one execution of the real blocks; a fully symbolic 9-byte file name is in the thorough tier); the walk (walkdir, FFI), unreadable / non-UTF-8 files (phase 2), the modules pulled in by imports (C14) and the 'site-packages' substring classification are NOT encoded; path components are ASCII (core::str::from_utf8 replaced by an ASCII-assuming stand-in in these harnesses, see evidence)." + COMMON_NOTE),
+ "C15": ("DESIGN.md §4 C15, §9", "Recorded positions, kernels only: line-index arithmetic (get_line_from_offset / get_char_position_from_offset) against its specification for every strictly increasing index (<= 4 lines) and every offset; find_function_name_position on def-line templates (plain, async, indented, tab) compared with the true token span; the providers' line / range helpers (internal_line_to_lsp, lsp_line_to_internal, create_range, create_point_range; text extracted from src/providers/mod.rs at every run) for every u32 / usize argument.",
+         "The spans the analyzer records for usages (UTF-16 columns, string-literal forms) need analyze_file on non-trivial ASTs and are out of solver reach (harnesses kept under props=ATTEMPT; the defects they show natively are listed in DESIGN.md §9.4); the call sites that pass spans to create_range in the handlers are outside." + COMMON_NOTE),
  "C16": ("DESIGN.md §4 C16, §9", "Cycle and scope-mismatch diagnostics of the real detect_fixture_cycles / detect_scope_mismatches_in_file against a reference dependency graph whose edges are resolved per depending file; all 25 scope pairs and definition lines symbolic per graph arm; both registration orders.",
          "<= 3 fixture names, <= 3 definitions per arm (std HashMap/HashSet cost); one fixed hash seed." + COMMON_NOTE),
- "C18": ("DESIGN.md §4 C18, §9", "Offered set: for each world arm the per-file view get_available_fixtures has at most one entry per name and that entry is the definition navigation resolves to (shared with C05; symbolic lines, import bit, third-party-is-plugin flag); completion context of the incomplete documents produced while typing (text fallback of get_completion_context): `def test_x(`, a fixture signature after a comma, `@pytest.mark.usefixtures(`, a non-test helper.",
-         "get_completion_context on VALID documents walks the AST and is out of solver reach (harnesses kept under props=ATTEMPT); filter/sort helpers in src/providers/completion.rs (binary crate) are not encoded." + COMMON_NOTE),
+ "C18": ("DESIGN.md §4 C18, §9", "Offered set, two halves. (1) Visible set: for each world arm the per-file view get_available_fixtures has at most one entry per name and that entry is the definition navigation resolves to (shared with C05; symbolic lines, import bit, third-party-is-plugin flag). (2) Filter algebra and ordering of src/providers/completion.rs (text of is_fixture_excluded / should_exclude_fixture / fixture_sort_priority / filter_and_enrich_fixtures extracted from the current tree at every run): excluded <=> being edited, or already declared, or (inside a fixture) of narrower scope — decided for every candidate name over {a,b,c}, scope, origin flags, declared list, edited name and edited scope; sort priority a strictly monotone function of the origin class (same file < conftest < plugin < third-party) for all flag combinations; the list pipeline on one concrete 4-candidate case.",
+         "get_completion_context (where completion is offered) walks the AST and is out of solver reach (harnesses kept under props=ATTEMPT); make_sort_text / make_fixture_detail go through format! (stubbed; their text is not encoded); candidate names are one letter; CompletionItem construction in the handlers is outside." + COMMON_NOTE),
+ "C19": ("DESIGN.md §4 C19, §9.8", "Configuration half only: Config::from_raw (text of src/config/mod.rs extracted from the current tree at every run, because from_raw / RawConfig are private) executed concretely through CBMC on two raw tables: unknown diagnostic codes (unknown word, wrong case, empty string) are dropped one by one while the documented codes around them stay disabled and the other settings arrive unchanged; an invalid glob between two valid ones is dropped alone, the valid ones still match, and the diagnostic codes next to it stay in force. One symbolic harness: for EVERY valid UTF-8 string of <= 6 bytes as an unknown code, from_raw does not panic, drops it, and keeps the documented code after it. is_diagnostic_disabled / should_exclude / should_skip_plugin are the real functions.",
+         "Concrete tables (a symbolic 14-byte code text exceeded 12 GB: kept as props=ATTEMPT); the TOML parse of untrusted text (Config::parse), publish_diagnostics_for_file, did_open / did_change sequencing and 'the diagnostics the client last received' live behind the tokio Backend / a full TOML parser and are NOT encoded — a change there is invisible to this check." + COMMON_NOTE),
  "C20": ("DESIGN.md §4 C20, §9", "Library half: get_unused_fixtures lists D iff D is not third-party, not autouse and find_references_for_definition(D) is empty, each (file, name) once, sorted — decided per world arm with autouse flags symbolic.",
          "Text/JSON rendering and exit codes (src/main.rs) not encoded; <= 3 definitions per world (std HashMap<(PathBuf,String)> cost)." + COMMON_NOTE),
 }
@@ -44,9 +48,7 @@ NOT_APPLICABLE = {
  "C17": "warning half: scan_function_body_for_undeclared_fixtures walks function-body ASTs (data-carrying enums = non-constant unions for CBMC, see C03) and is out of reach; quick-fix half: get_function_param_insertion_info is text search (`lines()`, `find(\"):\")`, `find('(')`, slicing) whose propositional encoding exceeded 10 GB even on five concrete signature templates executed in sequence, and ran past 15 min on a 5-byte symbolic line — measured, harnesses kept under props=ATTEMPT (natively they confirm the insertion defects listed in DESIGN.md §9.4)",
  "C03": "the property is about what the analyzer extracts from a parsed file; the rustpython AST is a tree of data-carrying enums (unions with pointers for CBMC): every node read is non-constant, the analyzer explores every statement/expression kind at every node and the recursive drop glue of the tree alone does not finish — measured: analyze_file on a 3-line fixture file > 14 min / > 8 GB, on an empty or comment-only file 40 s. Only trivial ASTs are within reach, which says nothing about extraction (harnesses kept under props=ATTEMPT, see DESIGN.md §9.2)",
  "C09": "needs interleavings at map-operation granularity of two running analyses; Kani/CBMC execute one thread and no thread-aware solver for Rust is installed; re-sequencing cut-up pieces by hand would be a model, not the real code",
- "C13": "the decision logic is written inline in the WalkDir loop of scan_workspace_with_excludes (FFI directory walking, cannot be stubbed at the needed granularity); the only callable kernel does not decide the property",
  "C14": "transitive import closure runs over the file system and the parser at every node and through std HashSet/SipHash; with both replaced by oracles nothing of the real logic remains within solver reach",
- "C19": "publish_diagnostics_for_file and did_open/did_change sequencing live in the tokio Backend (needs a live tower-lsp Client); Config::parse is a full TOML parse of untrusted text; neither can be symbolically executed here",
 }
 PENDING = {}  # filled below: properties designed as claimable (DESIGN.md) whose check is not built yet
 
